@@ -116,7 +116,7 @@ fn export(h: &Hist) -> (Sx, Sx, u64) {
 /// returns (observation, export line)
 pub fn run_case(case: &Sx) -> (Sx, Sx) {
     let c = case.clone();
-    let r = in_fresh_thread(move || {
+    let r = in_fresh_thread_limited(move || {
         intern_names();
         let l = c.as_lst();
         let seed = l[7].clone();
@@ -182,7 +182,7 @@ pub fn run_case(case: &Sx) -> (Sx, Sx) {
         }
         (lst(obs), lst(exp))
     });
-    r.unwrap_or_else(|_| (sym("harness-thread-panic"), lst(vec![sym("c03"), lst(vec![sym("err"), sym("harness-thread-panic")])])))
+    r.unwrap_or_else(|e| if e.0 == "timeout" { (timeout_obs(), lst(vec![sym("c03"), lst(vec![sym("err"), sym("timeout")])])) } else { (sym("harness-thread-panic"), lst(vec![sym("c03"), lst(vec![sym("err"), sym("harness-thread-panic")])])) })
 }
 
 fn flags() -> Sx {
